@@ -162,9 +162,16 @@ def capOp (impl : String) : P Verdict := do
     let m := okOne ls && okOne lp && st == "ok"
     pure { modelEq := m, specOk := some m, tag := s!"cap:{kind}:{cap}",
            model := s!"retained<=2*{model}+slack", spec := s!"seq={ls},pool={lp}" }
+  | [a, b, st, n] =>
+    -- TCP tracker: additionally the number of entries the sequential table holds (≤ capacity, tcp_entries_bounded)
+    let ls := a.toNat?.getD 0; let lp := b.toNat?.getD 0; let ne := n.toNat?.getD (cap + 1)
+    let okOne (l : Nat) : Bool := l ≤ 2 * model + 400000
+    let m := okOne ls && okOne lp && st == "ok" && ne ≤ cap
+    pure { modelEq := m, specOk := some m, tag := s!"cap:{kind}:{cap}",
+           model := s!"retained<=2*{model}+slack, entries<={cap}", spec := s!"seq={ls},pool={lp},entries={ne}" }
   | _ => pure { modelEq := false, specOk := none, tag := "bad-impl-output" }
 where
-  cap0 (kind : String) : Nat := if kind == "http" then 64 * 1024 else 64 * 1024 + 4
+  cap0 (kind : String) : Nat := if kind == "http" then 64 * 1024 else if kind == "tcp" then 256 else 64 * 1024 + 4
 
 def handlers : List (String × (String → P Verdict)) := [("C11.conn", conn), ("C11.cap", capOp)]
 
